@@ -66,6 +66,8 @@ struct M {
     pending: Vec<(u64, i64)>,
     proven: Vec<u64>,
     sector_dl: HashMap<u64, (u64, u64)>,
+    deals_of: HashMap<u64, Vec<u64>>,
+    next_commd: Option<(CompactCommD, Vec<u64>)>,
     pre: bool,
     synced: bool,
     diligent: bool,
@@ -397,6 +399,9 @@ struct Ctx<'a> {
     len: usize,
     idle_run: Option<(usize, u64, Vec<String>)>,
     real_steps: u64,
+    /// overdue events may exist (after a rolled-back tick or a skip): the schedule clause is not evaluated
+    sched_suspended: bool,
+    in_tick_monitor: bool,
 }
 
 impl<'a> Ctx<'a> {
@@ -460,6 +465,16 @@ impl<'a> Ctx<'a> {
                     self.fail_once(mi, "obligations-without-cron", what);
                 }
             }
+        }
+        self.schedule_monitor_after_message(s);
+    }
+
+    /// the schedule clause also holds between two messages of one epoch (an active claim holder's event sits at
+    /// the last epoch of the deadline containing the CURRENT epoch), e.g. right after the pre-commit that starts
+    /// the cron
+    fn schedule_monitor_after_message(&mut self, s: &Snap) {
+        if !self.sched_suspended && !self.in_tick_monitor {
+            self.schedule_monitor(s);
         }
     }
 
@@ -534,7 +549,7 @@ impl<'a> Ctx<'a> {
                 self.stats.op("create_miner", 0);
                 let idn = id.id().unwrap();
                 let diligent = self.r.chance(60);
-                self.w.miners.push(M { id, idn, owner: o, worker: wk, next_sector: 100, pending: vec![], proven: vec![], sector_dl: HashMap::new(), pre: false, synced: false, diligent, reported: BTreeSet::new() });
+                self.w.miners.push(M { id, idn, owner: o, worker: wk, next_sector: 100, pending: vec![], proven: vec![], sector_dl: HashMap::new(), deals_of: HashMap::new(), next_commd: None, pre: false, synced: false, diligent, reported: BTreeSet::new() });
                 let ms = msnap(&self.w.v, &id);
                 let offset = ms.pps.rem_euclid(PERIOD);
                 self.script.push(format!("create_miner {} at {}", idn, self.epoch()));
@@ -574,6 +589,7 @@ impl<'a> Ctx<'a> {
         let (mid, worker, base) = (self.w.miners[mi].id, self.w.miners[mi].worker, self.w.miners[mi].next_sector);
         let seal = RegisteredSealProof::StackedDRG32GiBV1P1;
         let expiration = e + Policy::default().min_sector_expiration + max_prove_commit_duration(&Policy::default(), seal).unwrap() + self.r.range(0, 3) * PERIOD;
+        let commd = self.w.miners[mi].next_commd.take();
         let sectors: Vec<SectorPreCommitInfo> = (0..count as u64)
             .map(|i| SectorPreCommitInfo {
                 seal_proof: seal,
@@ -582,7 +598,7 @@ impl<'a> Ctx<'a> {
                 seal_rand_epoch: e - 1,
                 deal_ids: vec![],
                 expiration,
-                unsealed_cid: CompactCommD::default(),
+                unsealed_cid: if i == 0 { commd.as_ref().map(|c| c.0.clone()).unwrap_or_default() } else { CompactCommD::default() },
             })
             .collect();
         let was_active = msnap(&self.w.v, &mid).active;
@@ -600,6 +616,7 @@ impl<'a> Ctx<'a> {
             self.accepted_msg = true;
             self.w.miners[mi].next_sector += count as u64;
             for i in 0..count as u64 { self.w.miners[mi].pending.push((base + i, e)); }
+            if let Some((_, deals)) = &commd { self.w.miners[mi].deals_of.insert(base, deals.clone()); }
             self.w.miners[mi].pre = true;
             if !was_active {
                 self.w.miners[mi].synced = false;
@@ -626,7 +643,7 @@ impl<'a> Ctx<'a> {
             return;
         }
         let (mid, worker) = (self.w.miners[mi].id, self.w.miners[mi].worker);
-        let acts: Vec<SectorActivationManifest> = ready.iter().map(|s| SectorActivationManifest { sector_number: *s, pieces: vec![] }).collect();
+        let acts: Vec<SectorActivationManifest> = ready.iter().map(|s| SectorActivationManifest { sector_number: *s, pieces: match self.w.miners[mi].deals_of.get(s) { Some(d) => make_piece_manifests_from_deal_ids(&self.w.v, d.clone()), None => vec![] } }).collect();
         let params = ProveCommitSectors3Params {
             sector_proofs: acts.iter().map(|sa| RawBytes::new(vec![sa.sector_number as u8; 4])).collect(),
             sector_activations: acts,
@@ -680,6 +697,52 @@ impl<'a> Ctx<'a> {
         let res = exec(&self.w.v, &reporter, &mid, &TokenAmount::zero(), MinerMethod::ReportConsensusFault as u64, Some(p));
         self.w.v.consensus_fault.replace(None);
         self.plain_result(mi, "report_consensus_fault", code(&res));
+    }
+
+    fn publish_deal(&mut self, mi: usize) {
+        let (mid, worker) = (self.w.miners[mi].id, self.w.miners[mi].worker);
+        let client = self.w.accts[4];
+        let e = self.epoch();
+        let v = &self.w.v;
+        let label = format!("deal{}-{}", self.w.miners[mi].idn, e);
+        let r = std::panic::catch_unwind(std::panic::AssertUnwindSafe(|| {
+            market_add_balance(v, &client, &client, &TokenAmount::from_whole(5));
+            market_add_balance(v, &worker, &mid, &TokenAmount::from_whole(5));
+            let ret = market_publish_deal(v, &worker, &client, &mid, label, fvm_shared::piece::PaddedPieceSize(1 << 30), false, e + 400, 181 * PERIOD);
+            let ids = ret.ids.clone();
+            let meta = precommit_meta_data_from_deals(v, &ids, RegisteredSealProof::StackedDRG32GiBV1P1, false);
+            (meta.commd, ids)
+        }));
+        self.w.v.take_invocations();
+        self.w.v.panics.borrow_mut().clear();
+        let ok = r.is_ok();
+        if let Ok(x) = r { self.w.miners[mi].next_commd = Some(x); self.bump("deals_published", 1); }
+        self.stats.op("publish_deal", if ok { 0 } else { 1 });
+        self.script.push(format!("publish_deal({})={} @{}", self.w.miners[mi].idn, ok, e));
+        let s = self.push_step("Nop".into(), 0, &[]);
+        self.state_monitors(&s);
+    }
+
+    /// dry run of the tick: the call ordinal of the first OnMinerSectorsTerminate sent from inside a miner callback
+    fn deals_injection(&mut self) -> Option<(u64, ExitCode)> {
+        let root = self.w.v.checkpoint();
+        self.w.v.take_invocations();
+        let _ = exec::<()>(&self.w.v, &SYSTEM_ACTOR_ADDR, &CRON_ACTOR_ADDR, &TokenAmount::zero(), CronMethod::EpochTick as u64, None);
+        let t = self.w.v.take_invocations().pop().unwrap();
+        self.w.v.rollback(root);
+        self.w.v.panics.borrow_mut().clear();
+        fn find(t: &InvocationTrace, ord: &mut u64, depth: u32, in_cb: bool) -> Option<u64> {
+            for s in &t.subinvocations {
+                let my = *ord;
+                *ord += 1;
+                let is_cb = s.method == MinerMethod::OnDeferredCronEvent as u64 && depth == 1 && s.to != REWARD_ACTOR_ADDR;
+                if in_cb && s.to == STORAGE_MARKET_ACTOR_ADDR { return Some(my); }
+                if let Some(x) = find(s, ord, depth + 1, in_cb || is_cb) { return Some(x); }
+            }
+            None
+        }
+        let mut ord = 0u64;
+        find(&t, &mut ord, 0, false).map(|k| (k, ExitCode::USR_ILLEGAL_STATE))
     }
 
     fn fund(&mut self, mi: usize) {
@@ -810,6 +873,7 @@ impl<'a> Ctx<'a> {
         self.stats.op("skip", 0);
         self.script.push(format!("skip {} @{}", k, e));
         for m in self.w.miners.iter_mut() { m.synced = false; }
+        self.sched_suspended = true;
         let s = self.push_step(format!("Skip {}", k), 0, &[]);
         self.state_monitors(&s);
     }
@@ -1113,7 +1177,19 @@ impl<'a> Ctx<'a> {
             };
             if let Some(k) = cz.cb { cb_cause.insert(k, cls); }
             match cls {
-                "injected" => {}
+                "injected" => {
+                    // the failure of OnMinerSectorsTerminate is TOLERATED in cron context: the enclosing callback
+                    // must still succeed
+                    if cz.to == STORAGE_MARKET_ACTOR_ADDR.id().unwrap() {
+                        if let Some(k) = cz.cb {
+                            self.bump("tolerated_deal_termination_failures_in_callbacks", 1);
+                            if infos[k].failed {
+                                cb_cause.insert(k, "cron-subcall-failed");
+                                self.fail("cron-subcall-failed", format!("tick at {}: the (injected) failure of the tolerated OnMinerSectorsTerminate send aborted the callback of miner {} (kind {})", e, infos[k].miner, infos[k].kind));
+                            }
+                        }
+                    }
+                }
                 "F1-pledge-total-negative" => {
                     self.bump("f1_in_tick", 1);
                     let mi = cz.cb.and_then(|k| self.w.miners.iter().position(|m| m.idn == infos[k].miner)).unwrap_or(0);
@@ -1143,7 +1219,10 @@ impl<'a> Ctx<'a> {
         for idn in post.claims.difference(&pre.claims) {
             self.fail("claim-lost", format!("tick at {}: claim of miner {} appeared during a tick", e, idn));
         }
+        self.in_tick_monitor = true;
         self.state_monitors(&post);
+        self.in_tick_monitor = false;
+        self.sched_suspended = power_failed;
         if power_failed {
             // the tick as a whole was rolled back (only reachable with an injected failure of the power
             // entry): its events are processed one epoch late; the schedule clause is about ticks that ran
@@ -1161,7 +1240,7 @@ fn run_case(cfg: &Cfg, stats: &mut Stats, stop_at: Option<usize>) -> (Case, Vec<
     let mut r = root.fork(cfg.case);
     let scen = cfg.scenario.as_str();
     let mut v = new_world();
-    let tweak = match scen { "drain" => true, "random" => r.chance(35), _ => false };
+    let tweak = match scen { "drain" | "deals" => true, "random" => r.chance(35), _ => false };
     if tweak {
         v.policy.addressed_sectors_max = 1 + r.below(3);
         v.policy.fault_max_age = PERIOD * (1 + r.below(2) as i64);
@@ -1178,17 +1257,21 @@ fn run_case(cfg: &Cfg, stats: &mut Stats, stop_at: Option<usize>) -> (Case, Vec<
     let pst: PowerState = get_state(&v, &STORAGE_POWER_ACTOR_ADDR).unwrap();
     let init = format!("init {} {} {}", cf::z(e0), cf::z(pst.first_cron_epoch), cf::z(budget));
     let w = W { v, accts, miners: vec![], padded, cache: Default::default() };
-    let mut cx = Ctx { w, r, cfg: cfg.clone(), stats, steps: vec![], fails: vec![], script: vec![], accepted_msg: false, pd_ok: false, extra: BTreeMap::new(), snap: Snap { first_cron: 0, miner_count: 0, claims: BTreeSet::new(), queue: BTreeMap::new(), miners: BTreeMap::new() }, kills: 0, e0, len: cfg.len, idle_run: None, real_steps: 0 };
+    let mut cx = Ctx { w, r, cfg: cfg.clone(), stats, steps: vec![], fails: vec![], script: vec![], accepted_msg: false, pd_ok: false, extra: BTreeMap::new(), snap: Snap { first_cron: 0, miner_count: 0, claims: BTreeSet::new(), queue: BTreeMap::new(), miners: BTreeMap::new() }, kills: 0, e0, len: cfg.len, idle_run: None, real_steps: 0, sched_suspended: false, in_tick_monitor: false };
     cx.bump(if padded { "cases_padded" } else { "cases_unpadded" }, 1);
     if tweak { cx.bump("cases_policy_tweaked", 1); }
     cx.create_miner();
-    let len = match scen { "f1" | "drain" | "double" => cfg.len.max(3 * PERIOD as usize + 600), "f7" => cfg.len.max(PERIOD as usize + 400), "stop" => cfg.len.max(3000), "f2" => cfg.len.min(200), _ => cfg.len };
+    let len = match scen { "f1" | "drain" | "double" | "deals" => cfg.len.max(3 * PERIOD as usize + 600), "f7" => cfg.len.max(PERIOD as usize + 400), "stop" => cfg.len.max(3000), "f2" => cfg.len.min(200), _ => cfg.len };
     // scripted openings of the directed scenarios
     let mut script_at: BTreeMap<i64, &str> = BTreeMap::new();
     match scen {
         "f1" | "double" => { script_at.insert(e0 + 2, "precommit"); }
         "f7" => { script_at.insert(e0 + PERIOD + 70 + cx.r.range(0, 200), "precommit"); }
         "stop" => { script_at.insert(e0 + 2, "precommit"); }
+        "deals" => {
+            script_at.insert(e0 + 2, "deal_precommit");
+            script_at.insert(e0 + 160, "provecommit");
+        }
         "drain" => {
             script_at.insert(e0 + 2, "precommit5");
             script_at.insert(e0 + 160, "provecommit");
@@ -1202,6 +1285,7 @@ fn run_case(cfg: &Cfg, stats: &mut Stats, stop_at: Option<usize>) -> (Case, Vec<
             match what {
                 "precommit" => cx.precommit(0, 1),
                 "precommit5" => { cx.w.miners[0].diligent = false; cx.precommit(0, 5) }
+                "deal_precommit" => { cx.w.miners[0].diligent = false; cx.publish_deal(0); cx.precommit(0, 3) }
                 "provecommit" => cx.provecommit(0),
                 _ => {}
             }
@@ -1251,6 +1335,7 @@ fn run_case(cfg: &Cfg, stats: &mut Stats, stop_at: Option<usize>) -> (Case, Vec<
             let allow_kill = has_due && late && cx.kills < 2;
             cx.choose_injection(allow_kill)
         } else { None };
+        let inject = if scen == "deals" && has_due { cx.deals_injection() } else { inject };
         let inject = if scen == "double" && has_due && cx.snap.claims.len() == 1 { cx.double_failure() } else { inject };
         if inject.is_some() { cx.bump("ticks_with_fault_plan", 1); }
         cx.tick(inject);
@@ -1316,7 +1401,7 @@ fn main() {
             }
         }
         for k in 0..a.cases {
-            let scenario = match k { 0 => "f2", 1 => "f1", 2 => "f7", 3 => "drain", 4 => "idle", 5 => "stop", _ => "random" };
+            let scenario = match k { 0 => "f2", 1 => "f1", 2 => "f7", 3 => "drain", 4 => "idle", 5 => "stop", 6 => "deals", _ => "random" };
             let cfg = Cfg { seed: a.seed, case: k as u64, len: a.len, scenario: scenario.to_string() };
             run(&cfg, None, &mut cw, &mut stats);
         }
